@@ -245,7 +245,7 @@ def build_jobs(tier: str) -> list:
     lifetimes = [1, 2, 3, 5, 8, 13, 20, 25, 30, 35, 40] if tier == 'quick' else list(range(1, 41)) + [50, 60, 75, 99, 100]
     jobs = []
     k = 0
-    for tag, text, p in gen.grid(seed() * 53 + 9, n, resmodels=(4, 3, 1, 2), lifetimes=lifetimes):
+    for tag, text, p in gen.grid(seed() * 53 + 9, n, resmodels=(4, 3, 1, 2, 5), lifetimes=lifetimes):
         q = dict(p)
         k += 1
         if 'Do AddOn Calculations' not in q:
@@ -257,6 +257,8 @@ def build_jobs(tier: str) -> list:
         if L == 1 and steps == 1:
             steps = 2
         q['Time steps per year'] = steps
+        if 'Reservoir Output File Name' in q:
+            q['Reservoir Output File Name'] = gen.profile_file(rng, L, steps)     # the profile must have L * steps + 1 lines
         if k % 9 == 0:
             q = _with_units(q, rng)
             tag += '+units'
@@ -336,6 +338,7 @@ def validate(res: Result, out: list) -> dict:
         res.case(o['tag'])
         bkey = f"writer:{o['family'][4]}/{c['enduse']}/{c['plant']}"
         counts[bkey] = counts.get(bkey, 0) + 1
+        counts['resmodel:' + c['resmodel']] = counts.get('resmodel:' + c['resmodel'], 0) + 1
         counts['figures_explained'] = counts.get('figures_explained', 0) + vd.get('explained', 0)
         counts['table_cells'] = counts.get('table_cells', 0) + sum(len(r) for tb in t['tables'] for r in tb['rows'])
         for tb in t['tables']:
